@@ -24,6 +24,7 @@ func init() {
 	register("C08.a", ruleC08a)
 	register("C11.c", ruleC11c)
 	register("C12.b", ruleC12b)
+	register("C12.d", ruleC12d)
 	register("C06.e", ruleC06e)
 	register("C08.b", ruleC08b)
 }
@@ -488,7 +489,7 @@ func ruleC12b(c *Ctx) []*report.Result {
 	for _, e := range eventsOf(a.It, "poolput") {
 		puts++
 		d := e.Detail
-		okv := d["type"] == tPP && d["override"] == "none" && d["wrappedErr"] == "nil" && d["mode"] == "UnsafeEscaped" && d["ctx"] == "none" && d["fmt.buf"] == "&"+d["self"]+"/buf"
+		okv := d["type"] == tPP && d["lent"] == "F" && d["override"] == "none" && d["wrappedErr"] == "nil" && d["mode"] == "UnsafeEscaped" && d["ctx"] == "none" && d["fmt.buf"] == "&"+d["self"]+"/buf"
 		if okv {
 			r.Ok("Put at " + c.P.Pos(e.Instr.Pos()) + " [" + cfgString(d) + "]")
 		} else {
@@ -652,4 +653,49 @@ func (c *Ctx) isFmtInterface(t types.Type) bool {
 		}
 	}
 	return false
+}
+
+// ruleC12d: a printer that lends its buffer to a nested printer has it back
+// on every exit. Ghost #lent is set on the lender when its buffer struct is
+// copied into another printer and disappears when a buffer struct is copied
+// back over it.
+func ruleC12d(c *Ctx) []*report.Result {
+	a := c.AFmt()
+	r := report.NewResult("C12.d", "every printer method that copies its buffer into another printer (a nested printer borrows the caller's buffer by value) has copied it back on every normal AND every panicking exit, for every reachable configuration: the caller never continues on a stale copy of a buffer the nested printer has already appended to", 8)
+	lenders := map[*ssa.Function]bool{}
+	for _, e := range eventsOf(a.It, "bufcopy") {
+		lenders[e.Fn] = true
+	}
+	if len(lenders) == 0 {
+		r.Undecide("no buffer hand-over between printers found")
+		return []*report.Result{c.finish(r)}
+	}
+	for _, k := range sortedSummaryKeys(a.It) {
+		s := a.It.Summaries[k]
+		if !lenders[s.Fn] || len(s.Args) == 0 {
+			continue
+		}
+		recv, ok := s.Args[0].(engine.Ptr)
+		if !ok {
+			continue
+		}
+		entry := strOf(s.Entry.Get(recv.Obj, "buf.Buffer.#lent"))
+		if entry != "F" {
+			continue // consequences of an earlier failure are reported at their origin
+		}
+		for _, o := range s.SortedOutcomes() {
+			kind := "normal"
+			if o.Exc {
+				kind = "panicking"
+			}
+			exit := strOf(o.Heap.Get(recv.Obj, "buf.Buffer.#lent"))
+			name := shortFn(s.Fn.String())
+			if exit == "F" {
+				r.Ok(name + " " + kind + " exit: buffer handed back [" + ppState(s.Entry, recv.Obj) + "]")
+			} else {
+				r.Fail(name+" / "+kind+" exit without hand-back", c.P.Pos(s.Fn.Pos()), "on a "+kind+" exit the buffer lent to the nested printer is not copied back: the caller goes on with a stale length and marker state while the shared storage already holds the nested output (a panic out of the nested print, contained further up, yields an ill-formed string)", nil, "entry: "+cfgString(ppConfig(s.Entry, recv.Obj)))
+			}
+		}
+	}
+	return []*report.Result{c.finish(r)}
 }
